@@ -217,8 +217,11 @@ def run_real(cfg: Dict[str, Any]) -> Tuple[List[List[Any]], str]:
 
 
 # ------------------------------------------------------------------- real ASTBuilder, instrumented
-def observe_builder(source: str, exts: List[str]) -> Dict[str, Any]:
-    """Build one module with the real ASTBuilder; return the observed config, events and stack state."""
+def observe_builder(source: str, exts: List[str], hider: bool = False) -> Dict[str, Any]:
+    """Build one module with the real ASTBuilder; return the observed config, events and stack state.
+    hider: one more extension, registered BEFORE the main visitor, that records nothing and raises SkipNode when it is shown a call
+    to `hidden(...)`.  The main visitor looks inside expression statements with bare visit() calls (generic_visit): the exception
+    travels up to the statement, which the main visitor then skips - for the walk it is the main visitor pruning that statement."""
     from pydoctor import model, astbuilder, astutils, visitor as V
 
     tree = ast.parse(source)
@@ -287,8 +290,18 @@ def observe_builder(source: str, exts: List[str]) -> Dict[str, Any]:
             stack_state["stack"] = len(self._stack)
             stack_state["current_is_none"] = self.current is None
 
+    class Hider(astutils.NodeVisitorExt):
+        when = V.When.BEFORE
+
+        def visit_Call(self, node):
+            if isinstance(node.func, ast.Name) and node.func.id == "hidden":
+                raise self.visitor.SkipNode()
+
     system = model.System()
-    system._astbuilder_visitors.extend(mk(t) for t in ["B", "B2", "A", "I", "O"] if t in exts)
+    classes = [mk(t) for t in ["B", "B2", "A", "I", "O"] if t in exts]
+    if hider:
+        classes.insert(min(1, len(classes)), Hider)      # among the BEFORE extensions, after the first recorder
+    system._astbuilder_visitors.extend(classes)
     mod = model.Module(system, "m")
     mod._py_string = source
     system._addUnprocessedModule(mod)
@@ -465,6 +478,9 @@ def run(ctx: Ctx) -> int:
               # zope.interface: interfaces created by calling an InterfaceClass, also through a chained assignment
               "from zope.interface.interface import InterfaceClass\nclass MyInterfaceClass(InterfaceClass):\n    pass\n"
               "IFoo = MyInterfaceClass('IFoo')\nIA = IB = MyInterfaceClass('IA')\nIC: object = MyInterfaceClass('IC')\nclass After:\n    pass\nLAST = 1\n",
+              # an extension that prunes a node the main visitor reaches by a bare visit() inside an expression statement
+              "class C:\n    'doc'\n    a = 1\n    hidden(1)\n    b = 2\n    shown(2)\nhidden(3)\ndef f():\n    'doc'\n    hidden(4)\nx = hidden(5)\nshown(hidden(6))\n",
+              "hidden(1)\nhidden(2)\nclass K:\n    hidden(3)\n    class L:\n        hidden(4)\n        y = 1\n",
               "from zope.interface import Interface, implementer\nclass IX(Interface):\n    def m(): 'doc'\n@implementer(IX)\nclass X:\n    def m(self): pass\nIY = IZ = Interface\n"]
     for i in range(nmod + len(corner)):
         src = corner[i] if i < len(corner) else pygen.gen_module(rng, depth=3, max_stmts=3)
@@ -475,7 +491,7 @@ def run(ctx: Ctx) -> int:
         exts = [t for t in ["B", "B2", "A", "I", "O"] if rng.random() < 0.6]
         if "B2" in exts and "B" not in exts:
             exts.remove("B2")
-        o = observe_builder(src, exts)
+        o = observe_builder(src, exts, hider="hidden(" in src)
         o["src"] = src
         if o["status"].startswith("aborted"):
             ctx.violation({"invariant": "WalkCompletes", "origin": "astbuilder", "input": src, "observed": {"status": o["status"], **o["stack"]},
